@@ -1227,16 +1227,30 @@ func c16Outage(p *Prog, r *Report) {
 						bad = append(bad, p.Pos(c.Pos())+": the outage clock is set to something other than now or zero")
 					}
 				}
-				guarded := false
-				for _, ct := range dominatingConds(c.Block()) {
-					if bo, ok := ct.Cond.(*ssa.BinOp); ok && ((bo.Op == token.NEQ && !ct.Truth) || (bo.Op == token.EQL && ct.Truth)) {
-						for _, side := range []ssa.Value{bo.X, bo.Y} {
-							for _, o := range origins(side) {
-								if ex, ok := o.(*ssa.Extract); ok {
-									if cc, ok := ex.Tuple.(*ssa.Call); ok && cc.Call.StaticCallee() != nil && cc.Call.StaticCallee().Name() == "queryHosts" {
-										guarded = true
+				guardedAt := func(blk *ssa.BasicBlock) bool {
+					for _, ct := range dominatingConds(blk) {
+						if bo, ok := ct.Cond.(*ssa.BinOp); ok && ((bo.Op == token.NEQ && !ct.Truth) || (bo.Op == token.EQL && ct.Truth)) {
+							for _, side := range []ssa.Value{bo.X, bo.Y} {
+								for _, o := range origins(side) {
+									if ex, ok := o.(*ssa.Extract); ok {
+										if cc, ok := ex.Tuple.(*ssa.Call); ok && cc.Call.StaticCallee() != nil && cc.Call.StaticCallee().Name() == "queryHosts" {
+											return true
+										}
 									}
 								}
+							}
+						}
+					}
+					return false
+				}
+				guarded := guardedAt(c.Block())
+				if !guarded {
+					// a private helper that publishes the new control connection: every call of it is guarded
+					if hsites, only := p.staticCallSites(rootFn(c.Parent())); only && len(hsites) > 0 && c.Parent().Parent() == nil {
+						guarded = true
+						for _, hs := range hsites {
+							if !guardedAt(hs.Block()) {
+								guarded = false
 							}
 						}
 					}
@@ -1740,8 +1754,32 @@ func heartbeatVersionViaHelper(p *Prog, fn *ssa.Function, in ssa.Instruction, hs
 		}
 		return pth
 	}
+	// the helper hands the negotiated version back and the heartbeat uses that result
+	usesNegotiated := false
+	for _, o := range origins(v) {
+		ex, ok := o.(*ssa.Extract)
+		if !ok || ex.Tuple != ssa.Value(hcall) {
+			continue
+		}
+		allNeg, nret := true, 0
+		eachInstr(helper, func(hin ssa.Instruction) {
+			ret, ok := hin.(*ssa.Return)
+			if !ok || ex.Index >= len(ret.Results) {
+				return
+			}
+			nret++
+			for _, ro := range origins(ret.Results[ex.Index]) {
+				if ro != neg {
+					allNeg = false
+				}
+			}
+		})
+		if allNeg && nret > 0 {
+			usesNegotiated = true
+		}
+	}
 	sameRecv := len(hcall.Call.Args) > 0 && len(fn.Params) > 0 && hcall.Call.Args[0] == ssa.Value(fn.Params[0])
-	if !sameRecv || !strings.HasPrefix(rel(fn, v), "recv.") || rel(fn, v) != rel(helper, req) {
+	if !usesNegotiated && (!sameRecv || !strings.HasPrefix(rel(fn, v), "recv.") || rel(fn, v) != rel(helper, req)) {
 		return true, "the heartbeat version is " + valDesc(v) + ", not the version the handshake in " + helper.Name() + " requested and compared with the negotiated one"
 	}
 	// every successful return of the helper compared the negotiated version equal to the requested one
@@ -1776,7 +1814,7 @@ func heartbeatVersionViaHelper(p *Prog, fn *ssa.Function, in ssa.Instruction, hs
 			okRets = false
 		}
 	})
-	if !okRets {
+	if !okRets && !usesNegotiated {
 		return true, helper.Name() + " can report success without having compared the negotiated version with the requested one: after a downgrade the heartbeats would use a version the connection does not speak"
 	}
 	// the start is reached only after the helper reported success
